@@ -953,6 +953,7 @@ Plan genC08(const std::string &profile, uint64_t seed, int tier) {
   else if (flow == 1) p.ops = {g, l};
   else p.ops = {g, d};
   int nv = tier ? (int)rv.range(5, 10) : (int)rv.range(3, 7);
+  Rng rh = rv.fork("history");
   for (int i = 0; i < nv; ++i) {
     Variant v;
     double t = rv.unit();
@@ -978,6 +979,7 @@ Plan genC08(const std::string &profile, uint64_t seed, int tier) {
       v.schedMode = SM_ALTY;
       v.sched.clear();
     }
+    if (i >= 2 && rh.chance(0.12)) v.mode = VM_HISTORY;
     if (v.mode == VM_FREERUN || v.mode == VM_PINNED) {
       v.sched.clear();
       int n = (int)rv.range(0, 12);
